@@ -61,7 +61,7 @@ def run(tier, seed, replay=None):
         f = fa[0]
         p = vlib.write_replay(PROP, 'failing_script.txt', '# %s: %s\n# at op %d (%s) of script %s\n%s\n' % (f['aspect'], f['what'], f['opn'], f['op'], f['script'], '\n'.join(dict(sh_scripts)[f['script']])))
         return {'violations': [(p, '')], 'coverage': cov, 'level': 'proof'}
-    n, maxops = (200, 70) if tier == 'quick' else (3000, 250)
+    n, maxops = (200, 70) if tier == 'quick' else (1000, 200)
     prof = mgr.profile(PROP)
     scripts = mgr.corpus(PROP) + [('g%d' % i, mgr.gen_script(rng.fork(PROP + '-%d' % i), maxops, prof)) for i in range(n)]
     return mgrcheck.run_check(PROP, scripts, ASPECTS, replay=replay, assumptions=['component payloads are modelled as one integer per instance', 'user callbacks only read what they are handed', 'extraArchetypeFilterCheck / extraChunkFilterCheck are the defaults'],
